@@ -76,6 +76,13 @@ def base_cases(r, tier):
     out.append({"name": "one-xattr-refused", "spec": xspec, "pre": [], "bs": "4096", "expect_fail": False,
                 "rules": [{"id": "x", "sys": "fsetxattr", "suffix": "/dst/m2", "action": "fault", "errno": 28}]})
     out.append({"name": "multi-block-options", "spec": copy.deepcopy(spec), "pre": [], "bs": "4096", "expect_fail": False, "opts": ["--no-perms", "--fsync", "--reflink", "never"]})
+    # T8: numbered backups of files whose names are prefixes of one another (rotated logs): every overwrite renames a neighbour
+    names = ["log", "log.1", "log.1.gz", "log.2", "README", "README.md", "f1", "f10", "f100", "f1.~1~x"]
+    spec8 = [{"p": "src", "k": "d"}] + [F("src/" + n, r.choice([0, 100, 5000, 70000]), 50 + i, mode=0o644) for i, n in enumerate(names)]
+    pre8 = [{"p": "dst", "k": "d"}, {"p": "dst/src", "k": "d"}] + [F("dst/src/" + n, r.choice([1, 300, 9000]), 80 + i, mode=0o600) for i, n in enumerate(names)]
+    pre8 += [F("dst/src/log.~1~", 7, 120), F("dst/src/f1.~2~", 8, 121), F("dst/src/README.~1~", 9, 122)]
+    out.append({"name": "backup-prefix-names", "spec": spec8, "pre": pre8, "bs": "4096", "expect_fail": False, "opts": ["--backup", "numbered"]})
+    out.append({"name": "backup-prefix-names-auto", "spec": copy.deepcopy(spec8), "pre": copy.deepcopy(pre8), "bs": "4096", "expect_fail": False, "opts": ["--backup", "auto"]})
     if tier == "thorough":
         for k in range(4):
             sp = [{"p": "src", "k": "d"}] + tree.gen_tree(r, depth=3, fanout=4, kinds=("f", "f", "d", "l"), prefix="src", nonutf8=True,
